@@ -136,6 +136,8 @@ def r09_2(ctx, repo):
         elif isinstance(v, ast.Call) and U(v.func) == 'sorted' and v.args \
                 and kind.get(U(v.args[0])) == 'NAMES':
             kind[t] = 'SORTED_NAMES'
+        elif isinstance(v, (ast.Name, ast.Attribute)) and U(v) in kind:
+            kind[t] = kind[U(v)]
     if names_src is None:
         ctx.error(rule, '%s: declaration-order state names not found'
                   % construct)
